@@ -227,9 +227,13 @@ var routes = ev.Register(&ev.P[momentCase]{
 				}
 				return d
 			}
-			before := strip(dig.Of(l2, 0))
+			depth := 0
+			if t.H == 23 && (t.D+t.Mi)%2 == 0 { // one level into the returned objects (Taoist/Buddhist date, hour objects, stars, terms)
+				depth = 1
+			}
+			before := strip(dig.Of(l2, depth))
 			l2.GetEightChar().SetSect(1)
-			after := strip(dig.Of(l2, 0))
+			after := strip(dig.Of(l2, depth))
 			l2.GetEightChar().SetSect(2)
 			if df := dig.Diff(before, after, 4); df != "" {
 				return fail("accessors of the lunar date before vs after its chart's SetSect(1)", df, "")
@@ -278,10 +282,21 @@ var routes = ev.Register(&ev.P[momentCase]{
 		}
 		// GetYun(g) == GetYunBySect(g, 1)
 		ec.SetSect(c.Sect)
-		for g := 0; g <= 1; g++ {
+		// genders in a rotating order on the one chart; 1 is male, every other value is female and is echoed back
+		gs := [][]int{{1, 0, 2, 3, -1}, {0, 1}, {3, 1, 0, 2}, {-1, 1, 1, 0}, {2, 0, 1}}[(t.D+t.H)%5]
+		for _, g := range gs {
 			y1, y2 := ec.GetYun(g), ec.GetYunBySect(g, 1)
-			a := fmt.Sprint(y1.GetStartYear(), y1.GetStartMonth(), y1.GetStartDay(), y1.GetStartHour(), y1.IsForward(), y1.GetStartSolar().ToYmdHms())
-			b := fmt.Sprint(y2.GetStartYear(), y2.GetStartMonth(), y2.GetStartDay(), y2.GetStartHour(), y2.IsForward(), y2.GetStartSolar().ToYmdHms())
+			a := fmt.Sprint(y1.GetGender(), y1.GetStartYear(), y1.GetStartMonth(), y1.GetStartDay(), y1.GetStartHour(), y1.IsForward(), y1.GetStartSolar().ToYmdHms())
+			b := fmt.Sprint(y2.GetGender(), y2.GetStartYear(), y2.GetStartMonth(), y2.GetStartDay(), y2.GetStartHour(), y2.IsForward(), y2.GetStartSolar().ToYmdHms())
+			if y1.GetGender() != g {
+				return fail(fmt.Sprintf("GetYun(%d).GetGender()", g), fmt.Sprint(y1.GetGender()), fmt.Sprint(g))
+			}
+			if g != 1 && g != 0 { // any value but 1 counts like 0
+				y0 := ec.GetYunBySect(0, 1)
+				if c0 := fmt.Sprint(y0.GetStartYear(), y0.GetStartMonth(), y0.GetStartDay(), y0.GetStartHour(), y0.IsForward(), y0.GetStartSolar().ToYmdHms()); !strings.HasSuffix(b, c0) {
+					return fail(fmt.Sprintf("GetYunBySect(%d,1) vs GetYunBySect(0,1)", g), b, c0)
+				}
+			}
 			if a != b {
 				return fail(fmt.Sprintf("GetYun(%d) vs GetYunBySect(%d,1)", g, g), a, b)
 			}
